@@ -1812,10 +1812,11 @@ def c11_conformance(seed, tier):
                 def limit():
                     signal.signal(signal.SIGXFSZ, signal.SIG_IGN)
                     resource.setrlimit(resource.RLIMIT_FSIZE, (3500, 3500))
-                pl = subprocess.run([os.path.join(core.TARGET, "debug", "l1"), "lib-compress", inp, outl, "F:1024", "64", "none", "6", "2", "-", "0"],
+                # (the archive goes to stdout: a pipe is not subject to the limit, the writer's temp file is)
+                pl = subprocess.run([os.path.join(core.TARGET, "debug", "l1"), "lib-compress", inp, "-", "F:1024", "64", "none", "6", "2", "-", "0"],
                                     stdout=subprocess.PIPE, stderr=subprocess.PIPE, env=core.env_offline(), preexec_fn=limit, timeout=120)
                 R.stat("library_writer_under_file_size_limit")
-                la = read_file(outl)
+                la = pl.stdout if pl.returncode == 0 else None
                 if pl.returncode == 0 and la is not None:
                     probs_l = pyfmt.conformance_problems(la, lsrc, "F:1024", 64, 0, 0, {}, version)
                     if probs_l:
@@ -2005,6 +2006,9 @@ def c15_cli(seed, tier):
                     R.fail("crafted-archive-%s" % cls, "bita %s on crafted archive %s :: %s" % (cmd, name, se.decode(errors="replace")[-160:].replace("\n", "|")))
                 if name in ("chunk-size-lie", "total-size-lie") and cmd != "info" and cls == "ok":
                     R.fail("inconsistent-dictionary-cloned-with-success", "bita %s on crafted archive %s" % (cmd, name))
+                if name.startswith("hash-length") and cmd != "info" and cls == "ok" and read_file(outp) != base_src:
+                    # only the declared hash length was changed: a clone that succeeds must still produce the source
+                    R.fail("inconsistent-dictionary-cloned-to-wrong-output", "bita %s on crafted archive %s" % (cmd, name))
                 if os.path.exists(outp):
                     os.unlink(outp)
             R.stat("mutation_" + name.split("-%d" % 0)[0][:40])
